@@ -310,6 +310,15 @@ fn implicit() -> impl Strategy<Value = Case> {
 
 fn check(c: &Case) -> CaseReport {
     let db = shared_db();
+    // one query in four is evaluated with the describe option on (an option that must not change an answer)
+    let run = |db: &anything::Db, q: &str| -> Result<Vec<R>, String> {
+        let h = q.bytes().fold(0xcbf29ce484222325u64, |h, b| (h ^ b as u64).wrapping_mul(0x100000001b3));
+        if (h >> 7) % 4 == 0 {
+            crate::tool::run_full(db, q, true).map(|r| r.results)
+        } else {
+            run(db, q)
+        }
+    };
     match c {
         Case::Implicit { direct, explicit } => {
             let (r1, r2) = match (run(db, direct), run(db, explicit)) {
@@ -435,7 +444,7 @@ fn check(c: &Case) -> CaseReport {
 }
 
 pub fn run_check(ctx: &Ctx) {
-    ctx.set_rule("chains `x S0 to S1 ... to Sn` (n <= 4) over K, °C/celsius, °F/fahrenheit with rational magnitudes (incl. absolute zero, -40, huge and tiny): the result must equal the direct conversion by K = C + 273.15, C = (F - 32)*5/9 exactly and carry the last scale alone; two to four such conversions as the root expressions of one query each give what they give alone; a sum or difference of two lone scales equals the same sum with the right operand converted explicitly; and the not-alone class (scale with power -3..3 other than 1, or multiplied/divided by one or two other units, cast to the same shape over another scale): the result must be an error or exactly the interval conversion; products and quotients of two or three quantities with at least one on an offset scale (alone, or next to another unit): refused, or equal in SI value and dimension to the same expression with every degree read as an interval (x °C as x K, x °F as x*5/9 K); non-trivial = chain of >=2 hops or not-alone; distinct by query text");
+    ctx.set_rule("chains `x S0 to S1 ... to Sn` (n <= 4) over K, °C/celsius, °F/fahrenheit with rational magnitudes (incl. absolute zero, -40, huge and tiny): the result must equal the direct conversion by K = C + 273.15, C = (F - 32)*5/9 exactly and carry the last scale alone; two to four such conversions as the root expressions of one query each give what they give alone; a sum or difference of two lone scales equals the same sum with the right operand converted explicitly; and the not-alone class (scale with power -3..3 other than 1, or multiplied/divided by one or two other units, cast to the same shape over another scale): the result must be an error or exactly the interval conversion; products and quotients of two or three quantities with at least one on an offset scale (alone, or next to another unit): refused, or equal in SI value and dimension to the same expression with every degree read as an interval (x °C as x K, x °F as x*5/9 K); one query in four is evaluated with the describe option on; non-trivial = chain of >=2 hops or not-alone; distinct by query text");
     ctx.assume("a prefixed degree (m°C, kK, millicelsius) is exactly its power of ten degrees of that scale (C03's prefix rule)");
     let corpus: Vec<(String, Case)> = load_corpus("C09");
     let cases: Vec<Case> = corpus.into_iter().map(|c| c.1).collect();
